@@ -141,8 +141,17 @@ func assembleCoff(c *CoffCase) (obj, flat []byte, skip string) {
 	if rf.Failed() {
 		return nil, nil, "flat form failed"
 	}
+	// the same source once more in the same process: an object writer that remembers anything from the
+	// previous object (string-table offsets, symbol lists) shows here
+	r2 := asm.Assemble(src)
+	if !r2.Failed() && !bytes.Equal(r2.Out, r.Out) {
+		coffRepeatDiffers[src] = true
+	}
 	return r.Out, rf.Out, ""
 }
+
+// sources whose second assembly in this process gave a different object (filled by assembleCoff)
+var coffRepeatDiffers = map[string]bool{}
 
 func checkC08(c CoffCase) Verdict {
 	src := c.source(true)
@@ -156,6 +165,10 @@ func checkC08(c CoffCase) Verdict {
 		v.Fail = fmt.Sprintf(f, a...) + fmt.Sprintf("\n--- source ---\n%s--- object (%d bytes), first 64: % x", src, len(obj), head(obj, 64))
 		v.Sig = "C08|" + kind
 		return v
+	}
+	if coffRepeatDiffers[src] {
+		delete(coffRepeatDiffers, src)
+		return fail("repeat", "assembling the same source a second time in the same process gives a different object")
 	}
 	f, err := coff.Parse(obj)
 	if err != nil {
@@ -281,6 +294,10 @@ func checkC09(c CoffCase) Verdict {
 		v.Fail = fmt.Sprintf(f, a...) + fmt.Sprintf("\n--- source ---\n%s", src)
 		v.Sig = "C09|" + kind
 		return v
+	}
+	if coffRepeatDiffers[src] {
+		delete(coffRepeatDiffers, src)
+		return fail("repeat", "assembling the same source a second time in the same process gives a different object (names and values must not depend on what was assembled before)")
 	}
 	f, err := coff.Parse(obj)
 	if err != nil {
@@ -516,7 +533,7 @@ func genCoffCase(t *rapid.T) CoffCase {
 
 var propC08 = &Prop[CoffCase]{
 	ID:     "C08",
-	Rule:   "32-bit WCOFF programs (0..12 statements incl. occasional 1k/40k/66k reservations) x 0..45 labels (some of them after the last byte of the program) x four orders of the header directives x GLOBAL statements declaring any sub-multiset of them (duplicates, undefined names, names of length 1..40 incl. exactly 8/9 and 18/19, shared prefixes) before and after the code x EXTERN x [FILE] of length 0..40 or absent; oracle: strict COFF reader (every offset/count against the file size, aux records counted, string-table length, NUL-terminated long names) + debug/pe + (thorough, sampled) objdump; non-trivial = >= 1 GLOBAL and (a long name or non-empty .text); distinct by source text",
+	Rule:   "32-bit WCOFF programs (0..12 statements incl. occasional 1k/40k/66k reservations) x 0..45 labels (some of them after the last byte of the program) x four orders of the header directives x GLOBAL statements declaring any sub-multiset of them (duplicates, undefined names, names of length 1..40 incl. exactly 8/9 and 18/19, shared prefixes) before and after the code x EXTERN x [FILE] of length 0..40 or absent; oracle: the same source assembled twice in one process gives the same object; strict COFF reader (every offset/count against the file size, aux records counted, string-table length, NUL-terminated long names) + debug/pe + (thorough, sampled) objdump; non-trivial = >= 1 GLOBAL and (a long name or non-empty .text); distinct by source text",
 	Assume: []string{"debug/pe and binutils objdump as independent COFF readers"},
 	Gen:    genCoffCase,
 	Check:  checkC08,
@@ -524,7 +541,7 @@ var propC08 = &Prop[CoffCase]{
 
 var propC09 = &Prop[CoffCase]{
 	ID:    "C09",
-	Rule:  "same generator as C08; oracle: .text raw data = flat binary of the same source without the FORMAT line (second gosk run), every defined GLOBAL exactly once as external symbol of section 1 with value = marker offset of its label, long names through the string table, no undeclared symbol, defined symbols in non-decreasing address order with undefined ones last, .file auxiliary record = [FILE] name zero-padded (first 18 bytes); non-trivial = >= 2 GLOBAL labels at different addresses not declared in address order, or a long name; distinct by source text",
+	Rule:  "same generator as C08; oracle: the same source assembled twice in one process gives the same object; .text raw data = flat binary of the same source without the FORMAT line (second gosk run), every defined GLOBAL exactly once as external symbol of section 1 with value = marker offset of its label, long names through the string table, no undeclared symbol, defined symbols in non-decreasing address order with undefined ones last, .file auxiliary record = [FILE] name zero-padded (first 18 bytes); non-trivial = >= 2 GLOBAL labels at different addresses not declared in address order, or a long name; distinct by source text",
 	Gen:   genCoffCase,
 	Check: checkC09,
 }
